@@ -214,6 +214,13 @@ def run(rep):
         names = [c.name for c in cb.calls]
         if "schema_name" in names and "value" in names:
             keyok = True
+    # ... and nothing is dropped: between collecting the imports and emitting them only reordering / reading operations
+    # touch the collection
+    if srt:
+        vec = im.base_through(srt[0].args[0])
+        ALLOWED = re.compile(r"^(sort\w*|iter|into_iter|is_empty|len|deref|deref_mut|as_slice|as_mut_slice|from_iter|next|as_ref|borrow|borrow_mut)$")
+        other = sorted(set(c.name for c in im.calls if c.args and im.base_through(c.args[0]) == vec and not ALLOWED.match(c.name or "")))
+        rep.check(not other, "C18-R3", im.def_, "imports-all-emitted", "the collected imports may only be reordered before they are emitted; %s can drop entries (a duplicate import, its comments and the warning about it would disappear)" % other, detail={"ops": other})
     rep.check(ok and keyok, "C18-R3", im.def_, "imports-sorted", "imports must be sorted by schema name before they are emitted", detail={"sort_sites": len(srt)})
     # every import and every definition is visited
     sc = prog.one(r"^aldrin_parser::fmt::Formatter::<'a>::schema$|^aldrin_parser::fmt::Formatter::schema$")
